@@ -170,7 +170,7 @@ fn frame_variants() -> Vec<Frame> {
 pub fn run(ctx: &Ctx) {
     ctx.enable_trace_pass(ctx.tier.pick(5000u64, 50000u64));
     ctx.set_rule("case = (abstract FIBEX model split into files, layout); families are complete products per dimension group around baselines (the full cross product of all groups is not attempted); every case is loaded with the real gather_fibex_data from files on tmpfs and compared as maps with an independently assembled expectation; extract_metadata is checked for every numeric frame id without and with 4 extended headers; non-trivial = the expected model has at least one frame or loading must be refused");
-    ctx.assume("grammar of the generated documents = that of the repository's sample files: one SHORT-NAME and BYTE-LENGTH per PDU/FRAME, instance elements holding only SEQUENCE-NUMBER and the reference, CODING-REF as empty element; no ties in sequence numbers, no duplicate signal/coding ids, no empty SHORT-NAME, no whitespace-only text");
+    ctx.assume("grammar of the generated documents = that of the repository's sample files: one SHORT-NAME and BYTE-LENGTH per PDU/FRAME, instance elements holding only SEQUENCE-NUMBER and the reference, CODING-REF as empty element; no ties in sequence numbers, no duplicate signal/coding ids, no empty SHORT-NAME");
     std::fs::create_dir_all(scratch_root()).ok();
     let dl = Layout::default();
     // G1: signal vocabulary, all ordered pairs
@@ -472,6 +472,26 @@ pub fn run(ctx: &Ctx) {
             };
             judge(&[elems], &[Layout { indent: c[1] != 1, ..Layout::default() }], &format!("{} instances, order variant {}, shape {}", n, c[1], c[2]), loc);
         }).chunk(1));
+    }
+    // G7: text content at its edges: leading / trailing / inner / only white space, entities and
+    // multi-byte characters at the edges, in every text-bearing field of the model
+    {
+        let texts: Vec<String> = vec![" x", "x ", " x ", "  x", "\tx", "\nx", "x\n", "\r\nx", "a  b", "a \n b", " ", "  ", "\t", "\u{a0}x", "x\u{a0}", "\u{2003}x", "&x", "x&", "<x>", " <x> ", "&amp;", " &", "\"q\"", "'", "é", " é ", "é ", " \u{1F600}", "0 ", " 0", " km/h", "x y z ", "]]>", " ]]> "].into_iter().map(String::from).chain([format!(" {}", "w".repeat(300)), format!("{} ", "w".repeat(300))]).collect();
+        let sp = Space::new(&[6, texts.len(), 2, 2]);
+        let s2 = sp.clone();
+        let texts = &texts;
+        ctx.run_family(Family::new("c11.text_edges", sp.size(), format!("{} texts with white space / entities / multi-byte characters at their edges (leading, trailing, inner, white space only: blank, tab, line break, NBSP, EM SPACE) in each of the 6 text-bearing fields {{PDU DESC, FRAME SHORT-NAME, APPLICATION_ID, CONTEXT_ID, MESSAGE_TYPE, MESSAGE_INFO}} x indentation x noise: the model holds the text exactly as written", texts.len()), move |i, loc| {
+            let c = s2.coords(i);
+            let t = texts[c[1]].as_str();
+            let pick = |k: usize, base: &str| -> String { if c[0] == k { t.to_string() } else { base.to_string() } };
+            let elems = vec![
+                Elem::Pdu(pdu("P1", Desc::Text(pick(0, "plain")), &[("S_UINT8", 0)])),
+                Elem::Pdu(pdu("P2", Desc::Absent, &[("S_BOOL", 0)])),
+                Elem::Frame(frame("ID_1", &pick(1, "one"), &[("P1", 0), ("P2", 1)], Some(manuf(Some(&pick(2, "APP1")), Some(&pick(3, "CTX1")), Some(&pick(4, "DLT_TYPE_LOG")), Some(&pick(5, "DLT_LOG_INFO")))))),
+                Elem::Frame(frame("ID_2", "two", &[("P2", 0)], Some(manuf(Some("APP1"), Some("CTX1"), None, None)))),
+            ];
+            judge(&[elems], &[Layout { indent: c[2] == 0, noise: c[3] == 1, ..Layout::default() }], &format!("text {:?} in field {}", t, ["PDU DESC", "FRAME SHORT-NAME", "APPLICATION_ID", "CONTEXT_ID", "MESSAGE_TYPE", "MESSAGE_INFO"][c[0]]), loc);
+        }));
     }
     cleanup_scratch();
 }
